@@ -46,8 +46,8 @@ CHECKS = {
         ref="4 C06"),
     "C07": dict(
         engine="RunLoop",
-        technique="TLA+ spec RunLoop (the agent loop folded over a provider script; exact thread frame sequence of a run) checked with TLC; one provider script per distinct predicted run played by a scripted provider against the real router; thread and session streams compared with the prediction",
-        text="TLC proves Ordered over all provider scripts of the alphabet and prints one script per distinct predicted run (text, tool calls, malformed JSON, schema-invalid events, HTTP 500, connection reset mid-body, end without [DONE], empty body x tool choices x history modes); the scripted provider plays each against the real router and the run's thread frames must be exactly the predicted sequence (selection, compilation, one side-effects frame per executed lock-path tool, cursor iff completed with a response id, run_ended last and once), the session stream must start with its start frame at seq 0, end with exactly one end frame and be gap-free, run_ended must follow the run's session_ended in file order; 13 further scenarios cover envelopes, no provider, dead endpoint, compile failure, parallel runs and failing / succeeding compaction jobs (job ended at most once).",
+        technique="TLA+ spec RunLoop (the agent loop folded over a provider script; exact thread frame sequence of a run) checked with TLC; one provider script per distinct predicted run played by a scripted provider against the real router; thread and session streams compared with the prediction; generated histories (random operation sequences) validated in file order by TLC against the life-cycle state machines of LifecycleTrace",
+        text="TLC proves Ordered over all provider scripts of the alphabet and prints one script per distinct predicted run (text, tool calls, malformed JSON, schema-invalid events, HTTP 500, connection reset mid-body, end without [DONE], empty body x tool choices x history modes); the scripted provider plays each against the real router and the run's thread frames must be exactly the predicted sequence (selection, compilation, one side-effects frame per executed lock-path tool, cursor iff completed with a response id, run_ended last and once), the session stream must start with its start frame at seq 0, end with exactly one end frame and be gap-free, run_ended must follow the run's session_ended in file order; 13 further scenarios cover envelopes, no provider, dead endpoint, compile failure, parallel runs and failing / succeeding compaction jobs (job ended at most once); generated histories (24 quick / 300 thorough: random sequences of prompts with 13 provider answers, tool and checkpoint envelopes, tasks and every continuity operation) are run for real and the whole log, in file order, is validated by TLC against the message / run / session / job state machines (LifecycleTrace; three corrupted copies of a recorded history must be rejected in every run).",
         note="Provider behaviour alphabet = six response outcomes x 3-4 call items; byte-level variety belongs to C15. Also: operations on the thread after a run has ended (cursor rotate, checkpoints, compaction jobs) must not add frames carrying the ended run's id.",
         ref="4 C07"),
     "C08": dict(
